@@ -22,6 +22,7 @@ RULE = (
     ' Also: samplers of the other layouts built (and one used) between building and using the sampler under test; Fortran-contiguous, s'
     'trided and double-flipped maps; the same sampler called from four threads.'
     " Round 8: 'huge' cases - sparse disk-backed maps of 2.6-3.7 Gpixel whose marked cells are read back at their centres (flat indices beyond 2^31)."
+    " Round 9: big-endian caller-owned maps shared by several sampler factories; the caller's map must be unchanged afterwards."
 )
 ASSUMPTIONS = ["astropy SkyCoord is the oracle for the Galactic/ecliptic rotations", "float64 evaluation of the documented layout with an either-adjacent-cell tolerance of 1e-9 cell (1e-7 after a rotation)"]
 VARIANTS = ["plate_carree_sampler", "plate_carree_zeroright_sampler", "plate_carree_planet_sampler", "plate_carree_planet_zeroleft_sampler", "plate_carree_galactic_sampler", "plate_carree_ecliptic_sampler"]
